@@ -289,6 +289,9 @@ func (r *recorder) derivedFactsLocked(s *snap) {
 func (r *recorder) snapEvent(ev vtrace.Event, s *snap) {
 	r.mu.Lock()
 	defer r.mu.Unlock()
+	if r.muted {
+		return
+	}
 	r.derivedFactsLocked(s)
 	s.into(ev)
 	r.lastSig = s.sig()
